@@ -16,7 +16,7 @@ RULE = (
 )
 ASSUMPTIONS = ["reference CRC (two cross-checked implementations) and own header arithmetic are the oracle"]
 GATES = ["serialize_checked", "reparse_checked", "frame_roundtrip_checked", "repr_checked", "lengths_enumerated",
-         "alias_families", "reader_roundtrip_checked"]
+         "alias_families", "reader_roundtrip_checked", "noncanonical_source_checked"]
 
 NASTY = bytes([0x27, 0x22, 0x5C, 0x00, 0x0A, 0x0D, 0x7F, 0x80, 0xFF, 0x7B, 0x7D, 0x25])
 
@@ -71,6 +71,25 @@ def one(ctx, payload, label):
     if s3 != want:
         ctx.violation("frame-roundtrip-differs", f"{label}: parse(frame).serialize() != frame", params)
         return
+    # a message obtained from a NON-canonical source must still serialise canonically:
+    # (a) wrong checksum bytes accepted with validation off; (b) a CRC-valid buffer whose header has reserved bits
+    #     set / a foreign preamble (the static parser only checks the CRC)
+    wrong = want[:-3] + bytes([want[-3] ^ 0x5A, want[-2], want[-1] ^ 0x01])
+    hdr2 = bytes([0xD3 if len(payload) % 2 else 0x53, want[1] | 0x84, want[2]]) + payload
+    odd = hdr2 + refcrc.crc_ref2(hdr2).to_bytes(3, "big")
+    for label2, buf, v in (("wrong-crc,validate=0", wrong, 0), ("odd-header,validate=1", odd, 1)):
+        try:
+            mx = RTCMReader.parse(buf, validate=v)
+            sx = mx.serialize()
+        except Exception as e:
+            ctx.violation("noncanonical-source-raised", f"{label} [{label2}]: {type(e).__name__}: {e}", params)
+            return
+        ctx.hit("noncanonical_source_checked")
+        if mx.payload != payload or sx != want:
+            ctx.violation("serialize-not-canonical", f"{label} len {len(payload)} [{label2}]: message parsed from a "
+                          f"non-canonical buffer serialises to {sx[:4].hex()}..{sx[-3:].hex()}, canonical frame is "
+                          f"{want[:4].hex()}..{want[-3:].hex()}", params)
+            return
     try:
         m4 = eval(repr(m), {"RTCMMessage": RTCMMessage, "__builtins__": {}})  # noqa: S307
     except Exception as e:
